@@ -19,7 +19,8 @@ TRUSTED = ["CPython 3.12.1 asyncio.TaskGroup, Task.cancel/uncancel/cancelling an
            "Haiway/Model/Groups.lean (read from the CPython sources; exercised only through the correspondence runs)",
            "harness/scopeprog.py runner + harness/groups_common.py projection and monitors",
            "the replay search of Driver/Groups.lean (places the three silent labels between observed events)"]
-ASSUMPTIONS = ["scopes without disposables (disposable faults are C02/C08)",
+ASSUMPTIONS = ["disposables enter only through their effect on the task group (a failing enter; the exit reason handed to the "
+               "group after the cleanup); at most one raising enter / exit script per block (exception groups are C08)",
                "user code = the statement kinds of scopeprog: gates, raise, try/catch-all, spawn/create_task, "
                "check_cancellation, ctx.cancel; external actions happen only when the loop is quiescent",
                "a scope entered by a task created with plain create_task after the scope it was created in has "
@@ -70,7 +71,27 @@ def model_input(case: str, out: str) -> str:
     blocks, _ = sp.index_program(json.loads(case)["prog"])
     toks = []
     entered = set()
-    for e in events(out):
+    evs = events(out)
+    # index of the event after which the disposables cleanup of a scope is over (all started `dex` have their `dexed`)
+    done_after: dict[int, tuple[str, str]] = {}
+    for i, e in enumerate(evs):
+        if e[0] not in ("X", "Z") and e[1] == "bodyend" and blocks[int(e[2])][1] == "async" and blocks[int(e[2])][4]:
+            started = finished = 0
+            last = i
+            for j in range(i + 1, len(evs)):
+                x = evs[j]
+                if x[0] != e[0]:
+                    continue
+                if x[1] == "left" and x[2] == e[2]:
+                    break
+                if x[1] == "dex":
+                    started += 1
+                elif x[1] == "dexed":
+                    finished += 1
+                    last = j
+            if started == finished:
+                done_after[last] = (e[0], e[2])
+    for idx, e in enumerate(evs):
         who, k = e[0], e[1]
         if who == "X":
             toks.append(f"{'rel' if k == 'rel' else 'cancel'}.{e[2]}")
@@ -89,11 +110,15 @@ def model_input(case: str, out: str) -> str:
             kind = blocks[int(e[2])][1]
             toks.append(f"enter.{who}.{e[2]}.{'A' if kind == 'async' else 'S'}")
         elif k == "bodyend":
-            if blocks[int(e[2])][1] == "async":
-                toks.append(f"bodyend.{who}.{e[2]}.{OUT.get(e[3], '?' + e[3])}")
+            blk = blocks[int(e[2])]
+            if blk[1] == "async":
+                if blk[4]:   # disposables: the group exit begins after their cleanup, with a reason the log does not show
+                    toks.append(f"cleanup.{who}.{e[2]}")
+                else:
+                    toks.append(f"bodyend.{who}.{e[2]}.{OUT.get(e[3], '?' + e[3])}")
         elif k == "left":
             if e[2] not in entered:   # `__aenter__` raised: modelled only as delivery of a pending cancellation
-                toks.append(f"enterfail.{who}.{e[2]}" if e[3] == "Cancelled" else f"?enterfail-{e[3]}")
+                toks.append(f"enterfail.{who}.{e[2]}.{OUT.get(e[3], '?' + e[3])}")
             else:
                 toks.append(f"left.{who}.{e[2]}.{OUT.get(e[3], '?' + e[3])}.{e[5]}")
         elif k == "await":
@@ -104,8 +129,8 @@ def model_input(case: str, out: str) -> str:
             toks.append(f"raise.{who}.{'e' if e[2] == 'exc' else 'b'}")
         elif k == "caught":
             toks.append(f"caught.{who}.{OUT.get(e[2], '?' + e[2])}")
-        elif k == "tryok" or k == "hang":
-            pass
+        elif k in ("tryok", "hang", "den", "dened", "dex", "dexed"):
+            pass    # disposables themselves are C02/C08; here only their effect on the group (enterfail / cleanup)
         elif k == "spawn":
             toks.append(f"spawn.{who}.{e[2]}.{'s' if e[3] == 'spawn' else 'c'}")
         elif k == "spawnfail":
@@ -116,6 +141,8 @@ def model_input(case: str, out: str) -> str:
             toks.append(f"cancelself.{who}")
         else:
             toks.append(f"?{k}")
+        if idx in done_after:
+            toks.append("cleanupdone.%s.%s" % done_after[idx])
     return " ".join(toks)
 
 
@@ -178,6 +205,59 @@ class View:
     def is_async(self, b: int) -> bool:
         return self.blocks[b][1] == "async"
 
+    def has_disp(self, b: int) -> bool:
+        return bool(self.blocks[b][4])
+
+    def exit_info(self, i: int):
+        """for the `bodyend` event of an async block at index i: (block, index at which the group exit begins = after the
+        disposables cleanup, whether the exit reason handed to the group is a failure/cancellation, cleanup complete?)"""
+        e = self.ev[i]
+        t, b = e[0], int(e[2])
+        if not self.has_disp(b):
+            return b, i, e[3] != "ok", True
+        started = finished = 0
+        last = i
+        bad = e[3] != "ok"
+        for j in range(i + 1, len(self.ev)):
+            x = self.ev[j]
+            if x[0] != t:
+                continue
+            if x[1] == "left" and x[2] == e[2]:
+                break
+            if x[1] == "dex":
+                started += 1
+            elif x[1] == "dexed":
+                finished += 1
+                last = j
+                if x[3] != "ok":
+                    bad = True
+        if started == 0 and len(e) > 4 and e[4] == "1":
+            bad = True     # a cancellation pending at the end of the body is delivered when the cleanup is awaited
+        return b, last, bad, started == finished
+
+    def phase(self, t: int, pos: int):
+        """where task t is at event index pos: ("enter", b) inside the disposables enter of async block b, ("cleanup", b, i)
+        while the disposables cleanup is awaited (i = index of the bodyend), ("exit", b, i) in the group exit, else None"""
+        started = finished = 0
+        for j in range(pos - 1, -1, -1):
+            x = self.ev[j]
+            if x[0] != str(t):
+                continue
+            k = x[1]
+            if k == "dex":
+                started += 1
+            elif k == "dexed":
+                finished += 1
+            elif k == "bodyend" and self.is_async(int(x[2])):
+                return ("cleanup" if started > finished else "exit", int(x[2]), j)
+            elif k == "pre" and self.is_async(int(x[2])) and self.has_disp(int(x[2])):
+                return ("enter", int(x[2]))
+            elif k in ("den", "dened"):
+                continue
+            else:
+                return None
+        return None
+
     def task_events(self, t: int, lo: int = 0, hi: int | None = None):
         hi = len(self.ev) if hi is None else hi
         return [(i, self.ev[i]) for i in range(lo, hi) if self.ev[i][0] == str(t)]
@@ -234,6 +314,18 @@ def members_not_cancelled(v: View, b: int, pos: int, abort_later: bool = False) 
     return bad
 
 
+def members_awaited_after_failure(v: View, i: int) -> list[int]:
+    """`bodyend` of an async block at index i: if the exit reason handed to the group – the body's outcome, or what the
+    disposables cleanup replaced it by (a disposable raising; a cancellation delivered while the cleanup is awaited) – is a
+    failure or a cancellation, the members still pending when the group exit begins must be cancelled, not awaited."""
+    b, at, bad, complete = v.exit_info(i)
+    if not bad or not complete:
+        return []
+    if v.has_disp(b):
+        return members_not_cancelled(v, b, at + 1, abort_later=True)
+    return members_not_cancelled(v, b, i)
+
+
 # ------------------------------------------------------------------------------------------------
 # C06 monitor
 
@@ -253,11 +345,17 @@ def monitor_c06(case: str, out: str) -> list[str]:
             alive = set() if e[5] == "-" else {int(x) for x in e[5].split("+")}
             if alive & set(v.members.get(int(e[2]), [])):
                 fails.add("groups.member-outlives-scope")
-        elif k == "bodyend" and v.is_async(int(e[2])) and e[3] != "ok":
-            if members_not_cancelled(v, int(e[2]), i):
-                fails.add("groups.members-awaited-after-body-failure")
+        elif k == "bodyend" and v.is_async(int(e[2])):
+            if members_awaited_after_failure(v, i):
+                fails.add("groups.members-awaited-after-body-failure" if e[3] != "ok"
+                          else "groups.members-awaited-after-cleanup-failure")
         elif k == "spawnfail" and v.visible_at.get(i) is None:
             fails.add("spawn.refused-outside-any-scope")
+        elif k == "spawnfail":
+            # inside the body of an own, open scope none of whose members has failed the group accepts new tasks
+            b = v.visible_at[i]
+            if v.stack_at.get(i) and v.stack_at[i][-1] == b and not group_member_failed(v, b, i):
+                fails.add("spawn.refused-in-open-scope")
         elif k == "spawn" and e[3] == "spawn" and v.visible_at.get(i) is None:
             c = int(e[2])
             evs = v.task_events(c)
@@ -283,6 +381,11 @@ def monitor_c06(case: str, out: str) -> list[str]:
         if in_exit and not at_gate and not unstarted:
             fails.add("groups.exit-hangs")
     return sorted(fails)
+
+
+def group_member_failed(v: View, b: int, pos: int) -> bool:
+    return any(e[1] == "end" and e[2] not in ("ok", "Cancelled")
+               for m in v.members.get(b, []) for _i, e in v.task_events(m, 0, pos))
 
 
 def owns_failed_member(v: View, t: int, pos: int) -> bool:
@@ -316,23 +419,50 @@ def excused(v: View, t: int, pos: int) -> bool:
             return True
         if e[1] == "raise":
             return True
+        if e[1] in ("dened", "dexed") and e[3] not in ("ok", "Cancelled"):
+            return True     # a disposable of t raising while the scope is entered / cleaned up
     return False
 
 
+def exit_reason(v: View, i: int) -> str:
+    """the exit reason the group is handed for the `bodyend` at index i, as far as the log shows it"""
+    e = v.ev[i]
+    if not v.has_disp(int(e[2])):
+        return e[3]
+    outs = []
+    for j in range(i + 1, len(v.ev)):
+        x = v.ev[j]
+        if x[0] == e[0] and x[1] == "left" and x[2] == e[2]:
+            break
+        if x[0] == e[0] and x[1] == "dexed" and x[3] != "ok":
+            outs.append(x[3])
+    if "Cancelled" in outs or (len(e) > 4 and e[4] == "1"):
+        return "Cancelled"
+    return outs[0] if outs else e[3]
+
+
 def delivery_point(v: View, t: int, pos: int):
-    """where the request of event index pos reaches t: ("exit", b, how b's body ended, index of its bodyend) when it is
-    delivered while t waits in the group exit of async block b; ("gate",) when it is delivered at a gate; None when t
-    ends before any suspension ("cancelled right before the coroutine stops")."""
+    """where the request of event index pos reaches t:
+    ("exit", b, exit reason of b, index of its bodyend) – while t waits in the group exit of async block b;
+    ("cleanup", b, index of the bodyend) – while the disposables cleanup of b is awaited;
+    ("enter", b) – while the disposables of b are entered;  ("gate",) – at a gate;
+    None – t ends before any suspension ("cancelled right before the coroutine stops")."""
     if v.ev[pos][0] == "X":
-        last = v.last_event(t, pos)
-        if last is not None and last[1][1] == "bodyend" and v.is_async(int(last[1][2])):
-            return ("exit", int(last[1][2]), last[1][3], last[0])
-        return ("gate",)
+        ph = v.phase(t, pos)
+        if ph is None:
+            return ("gate",)
+        if ph[0] == "exit":
+            return ("exit", ph[1], exit_reason(v, ph[2]), ph[2])
+        return ph
     for i, e in v.task_events(t, pos + 1):
         if e[1] == "resume":
             return ("gate",)
+        if e[1] == "pre" and v.is_async(int(e[2])) and v.has_disp(int(e[2])):
+            return ("enter", int(e[2]))
         if e[1] == "bodyend" and v.is_async(int(e[2])):
             b = int(e[2])
+            if v.has_disp(b):
+                return ("cleanup", b, i)
             # the exit suspends iff members are still registered (pending, or ended during this very step burst)
             if any(v.spawn_pos[m] < i and not v.reaped_before(m, i) for m in v.members.get(b, [])):
                 return ("exit", b, e[3], i)
@@ -350,9 +480,12 @@ def monitor_c07(case: str, out: str) -> list[str]:
         if excused(v, t, pos):
             continue
         where = delivery_point(v, t, pos)
-        in_exit = (where[1], where[2], where[3]) if where and where[0] == "exit" else None
+        kind = where[0] if where else None
+        in_exit = (where[1], where[2], where[3]) if kind == "exit" else None
         if v.final.get(t) != "Cancelled":
-            if in_exit is None:
+            if kind == "cleanup":
+                fails.add("groups.cancel-lost.disposables-cleanup")
+            elif in_exit is None:
                 fails.add("groups.cancel-lost.outside-exit-wait")
             else:
                 b, body_out, _at = in_exit
@@ -369,8 +502,13 @@ def monitor_c07(case: str, out: str) -> list[str]:
         # the tasks it spawned in those scopes are cancelled too
         if in_exit is not None and members_not_cancelled(v, in_exit[0], max(pos, in_exit[2]) + 1, v.ev[pos][0] != "X"):
             fails.add("groups.members-not-cancelled.exit-wait")
+        if kind == "cleanup":
+            # the cancellation becomes the scope's exit reason: when the cleanup is over the group must abort
+            b, at, _bad, complete = v.exit_info(where[2])
+            if complete and members_not_cancelled(v, b, max(pos, at) + 1, abort_later=True):
+                fails.add("groups.members-not-cancelled.cleanup")
         for i, e in v.task_events(t, pos + 1):
-            if e[1] == "bodyend" and v.is_async(int(e[2])) and e[3] != "ok" and members_not_cancelled(v, int(e[2]), i):
+            if e[1] == "bodyend" and v.is_async(int(e[2])) and members_awaited_after_failure(v, i):
                 fails.add("groups.members-not-cancelled.body")
     # the cancellation check
     for i, e in enumerate(v.ev):
@@ -393,8 +531,18 @@ def no_disposables(case: str) -> bool:
     return all(not b[4] for b in blocks.values())
 
 
-def gen(rng, depth=3, p_raise=0.07, p_cancel=0.3) -> str:
-    return sp.gen_case(rng, depth=depth, p_disp=0.0, p_raise=p_raise, p_fault=0.0, p_cancel=p_cancel)
+def modelled_disposables(case: str) -> bool:
+    """at most one raising enter script and one raising exit script per block (several failures come out of
+    `Disposables` as an exception group, which is C08's subject and not an outcome of this model)"""
+    blocks, _ = sp.index_program(json.loads(case)["prog"])
+    return all(sum(d[1] == "raise" for d in b[4]) <= 1 and sum(d[2] == "raise" for d in b[4]) <= 1 for b in blocks.values())
+
+
+def gen(rng, depth=3, p_raise=0.07, p_cancel=0.3, p_disp=0.0) -> str:
+    while True:
+        c = sp.gen_case(rng, depth=depth, p_disp=p_disp, p_raise=p_raise, p_fault=0.5 if p_disp else 0.0, p_cancel=p_cancel)
+        if modelled_disposables(c):
+            return c
 
 
 def sweep(case: str, steps: int = 7, width: int = 3):
@@ -416,8 +564,8 @@ def pairs(case: str, steps: int = 5, width: int = 2):
                                      separators=(",", ":"))
 
 
-def _a(b, body):
-    return ["block", "async", b, [], [], body]
+def _a(b, body, disps=None):
+    return ["block", "async", b, [], disps or [], body]
 
 
 _SLOW = [["try", [["await", 1]]], ["await", 2]]          # a member that swallows one cancellation and waits again
@@ -454,6 +602,24 @@ DIRECTED = [
     # a member that swallows its cancellation and spawns again while the group shuts down (must be refused, not detached)
     [_a(1, [["spawn", 1, "spawn", [["try", [["await", 1]]], ["spawn", 2, "spawn", [["await", 2]]], ["await", 3]]],
             ["await", 4], ["raise", "exc"]]), ["await", 9]],
+    # a scope left through a genuine cancellation that user code recovers from: the next spawn is detached (outside any
+    # scope) / joins the enclosing scope's group – never refused
+    [["try", [_a(1, [["spawn", 1, "spawn", [["await", 1]]], ["await", 2]])]], ["spawn", 2, "spawn", [["await", 3]]], ["await", 4]],
+    [_a(5, [["try", [_a(1, [["spawn", 1, "spawn", [["await", 1]]], ["await", 2]])]], ["spawn", 2, "spawn", [["await", 3]]],
+            ["await", 4]]), ["await", 9]],
+    [_a(5, [["try", [_a(1, [["spawn", 1, "spawn", [["await", 1]]], ["cancelself"], ["await", 2]])]],
+            ["spawn", 2, "spawn", [["await", 3]]], ["await", 4]])],
+    # disposables: slow cleanup (gate) while a member is blocked and the body has returned – the cancellation of the
+    # scope's task landing during the cleanup is the group's exit reason; cleanup raising; slow / failing enter
+    [_a(1, [["spawn", 1, "spawn", [["await", 1]]]], [[1, "ok", ["wait", 5], []]]), ["await", 9]],
+    [_a(1, [["spawn", 1, "spawn", [["await", 1]]], ["await", 2]], [[1, "ok", ["wait", 5], []], [2, "ok", "ok", []]]), ["await", 9]],
+    [_a(1, [["spawn", 1, "spawn", [["await", 1]]], ["spawn", 2, "spawn", [["try", [["await", 2]]], ["await", 3]]]],
+        [[1, "ok", "raise", []], [2, "ok", ["wait", 5], []]]), ["await", 9]],
+    [_a(1, [["spawn", 1, "spawn", [["await", 1]]], ["cancelself"]], [[1, "ok", ["wait", 5], []]]), ["await", 9]],
+    [["try", [_a(1, [["spawn", 1, "spawn", [["await", 1]]]], [[1, ["wait", 5], "ok", []], [2, "ok", ["wait", 6], []]])]],
+     ["spawn", 2, "spawn", [["await", 3]]], ["await", 9]],
+    [_a(2, [["try", [_a(1, [["spawn", 1, "spawn", [["await", 1]]]], [[1, "raise", "ok", []], [2, ["wait", 5], "ok", []]])]],
+            ["spawn", 2, "spawn", [["await", 3]]]]), ["await", 9]],
     # two nested async scopes, members in both, cancellation in the inner exit wait
     [_a(1, [["spawn", 1, "spawn", [["await", 5]]], _a(2, [["spawn", 2, "spawn", _SLOW]]), ["await", 4]]), ["await", 9]],
 ]
@@ -468,6 +634,8 @@ def _gates(prog, acc):
         elif st[0] == "spawn":
             _gates(st[3], acc)
         elif st[0] == "block":
+            for d in st[4]:
+                acc += [x[1] for x in d[1:3] if isinstance(x, list)]
             _gates(st[5], acc)
     return acc
 
